@@ -183,7 +183,7 @@ def _attribution(c, market, tag):
             c.ob("%s.stream-update-attributed-to-own-bet" % tag, co.bet_id == o.bet_id, order_bet=o.bet_id, update_bet=co.bet_id)
 
 
-def h11a(c, K=3, async_place=False):
+def h11a(c, K=3, async_place=False, on_world=None, epilogue_fill=False):
     """K symbolic steps from {requests, delivery of an outstanding response, exchange-side fill / lapse, current or stale snapshot}
     against a bet table; at quiescence (all responses delivered, latest snapshot processed twice) flumine agrees with the exchange"""
     with cm.config_set(simulated=False, async_place_orders=async_place):
@@ -194,6 +194,8 @@ def h11a(c, K=3, async_place=False):
         pool = DeferredPool(fl.betfair_execution, at_once)
         fl.betfair_execution._thread_pool = pool
         market = fl._add_market(cm.MID, cm.book([cm.runner(1), cm.runner(2)], version=7))
+        if on_world is not None:
+            on_world(ex, fl, market)
         o = cm.mk_limit(strategy, "BACK", 2.0, 10.0)
         with c.guard("place"):
             market.place_order(o, force=True)
@@ -258,6 +260,13 @@ def h11a(c, K=3, async_place=False):
         _agree(c, fl, ex, market, strategy, "quiescent")
         if len(ex.bets) > 1:
             c.cover("replaced-bet")
+        if epilogue_fill:
+            # epilogue (C03 finality): whatever still rests at the exchange is now matched and published
+            with c.guard("epilogue"):
+                for b in list(ex.bets.values()):
+                    if b["status"] == "EXECUTABLE":
+                        ex.fill(b["bet_id"], 1000.0)
+                fl._process_current_orders(cm.current_orders_event(client, ex.snapshot()))
         c.cover("run")
 
 
